@@ -69,6 +69,7 @@ def bounded(ctx):
     from Bio.Seq import Seq
     from Bio.SeqRecord import SeqRecord
     ns = native.load(ctx.repo_root)
+    from bounded import common as bc
     CircularRecord = ns["moclo.record"].CircularRecord
     viol, samples = [], []
     evals = 0
@@ -88,6 +89,9 @@ def bounded(ctx):
             rots = [s[i:] + s[:i] for i in range(n)]
             rec = CircularRecord(Seq(s), id="x", annotations={"topology": "circular"})
             rrecs = [CircularRecord(Seq(r), id="x") for r in rots]
+            if n % 2:
+                for r_ in [rec] + rrecs[1:]:
+                    bc.preuse(r_, ns)    # records that have been searched / sliced / rotated before
             for q in queries:
                 evals += 1
                 want = len(q) <= n and any(q in r for r in rots)
